@@ -139,7 +139,7 @@ def _mk(tname, targs, mod, cls, extra):
                 descr=f'{cls}.deserialize on the schema encoding of {tname} {suffix} in {len(cs)} shapes = {how} x nested profile x '
                       f'var-integer length rotation (fields symbolic over their full range): every field returned with the encoded '
                       f'value, exactly the encoded bits and references consumed',
-                budget={'seconds': 300, 'paths': 4000})
+                budget={'seconds': 25, 'paths': 400})
     def ob(w, i, shape, _t=tname, _a=targs, _m=mod, _c=cls, _x=extra):
         case = cases_of(_t, _a)[i]
         M = importlib.import_module(_m)
